@@ -13,8 +13,8 @@ EXPLANATION = (
     "is_long/to_long test `--`, is_short/to_short `-` then `--`, is_escape `--`, is_stdio `-`; to_long splits at the first "
     "`=` (split_once -> find, never rfind). R13.4 PANIC over every clap_lex body. R13.5 next_value_os exhausts the iterator on every returning path. R13.6 the non-UTF-8 fallback of to_long/to_value returns the very string whose conversion failed. R13.7 the two negative-number classifiers agree: ParsedArg::is_negative_number = is_number(text after exactly one leading `-`) on "
     "valid UTF-8 only, ShortFlags::is_negative_number = is_number(remaining valid prefix) only when there is no invalid suffix. R13.8 cluster walk: ShortFlags::next_flag yields the next char of the valid prefix first, then the invalid suffix exactly once "
-    "(cleared in the same block), then None; is_empty is `no invalid suffix && prefix exhausted`; Iterator::next delegates to next_flag. NOT decided: byte-for-byte "
-    "re-assembly for all inputs, the language of is_number."
+    "(cleared in the same block), then None; is_empty is `no invalid suffix && prefix exhausted`; Iterator::next delegates to next_flag. R13.9 is_number: once every byte passed the scan the result is true unless an exponent marker is the last byte. NOT decided: byte-for-byte "
+    "re-assembly for all inputs, the in-loop part of the language of is_number."
 )
 TRUSTED = ["rustc MIR", "clapfacts", "lib/panics.py", "audit/panic.tsv", "std: char_indices/valid_up_to/str::find return char boundaries"]
 ASSUMPTIONS = ["OsStr encoded bytes are a superset of UTF-8 in which any split adjacent to valid UTF-8 text is sound (std documentation of from_encoded_bytes_unchecked)"]
@@ -144,6 +144,21 @@ def run(ctx):
         e = expr(t, c.args[0])
         res.check(e == "as_str(self.utf8_prefix)" and has_bool(t, c.bb, "T", r"^is_none\(self\.invalid_suffix\)$"), "R13.7", "short-flags", c.where(),
                   "invalid_suffix.is_none() && is_number(utf8_prefix.as_str())", "ShortFlags::is_negative_number tests is_number(%s) under %s" % (e[:60], guard_strs(t, c.bb)))
+    # ---- R13.9 is_number: after the scan the only rejection is a dangling exponent
+    isn = fx.body("clap_lex::is_number")
+    post = [d for d in isn.def_sites(0) if any(re.match(r"^V0:next\(into_iter\(enumerate\(", g) for g in guard_strs(isn, d[0]))]
+    res.floor("R13.9", "post-scan results of is_number", len(post), 2)
+    for d in post:
+        gl = guard_strs(isn, d[0])
+        rv = d[3]
+        if "V0:position_of_e" in gl:
+            res.check(isinstance(rv, dict) and rv["k"] == "use" and op_int(rv["op"]) == 1, "R13.9", "no-exponent-accepted", "%s bb%d" % (isn.where(), d[0]), "without an exponent every scanned text is a number",
+                      "is_number rejects texts that passed the scan and have no exponent (e.g. `1.`): `-1.` is a value in `--opt=-1.` but an unknown flag in `--opt -1.`")
+        elif "V1:position_of_e" in gl:
+            okd = isinstance(rv, dict) and rv["k"] == "binop" and rv["op"] == "Ne" and {expr(isn, rv["a"]), expr(isn, rv["b"])} == {"position_of_e#Some.0", "Sub(len(arg),1)"}
+            res.check(okd, "R13.9", "dangling-exponent", "%s bb%d" % (isn.where(), d[0]), "with an exponent: rejected only if `e` is the last byte", "is_number's exponent check is no longer `position != len - 1`")
+        else:
+            res.violation("R13.9", "post-scan-unrecognised", "%s bb%d" % (isn.where(), d[0]), "is_number decides after the scan under %s" % gl[-2:])
     # ---- R13.8 next_flag / is_empty
     nf = fx.body("clap_lex::ShortFlags::next_flag")
     rets = [(i, s_) for i, j, s_ in nf.stmts() if s_["k"] == "assign" and s_["place"] == 0 and s_["rv"]["k"] == "agg"]
